@@ -21,12 +21,14 @@ EXTENDS Naturals, Sequences, FiniteSets, TLC
 \* "unknown variant `x`", "invalid type: ...").  A legal string; for every other type just one more
 \* value that does not parse -- the refusal must not depend on what the rejected text says (the
 \* extractors classify some failures by the wording of an error message that echoes the input).
+\* "long_unicode": some sixty ASCII characters followed by multi-byte characters (so that any byte-offset cut
+\* made while reporting the value falls inside a character); a legal string, unparsable as anything else.
 StringClasses == {"plain", "reserved", "unicode", "long", "slashes", "plus_space", "empty", "invalid_utf8",
-                  "message_like"}
+                  "message_like", "long_unicode"}
 IntClasses == {"zero", "min", "max", "over", "under", "alpha", "float", "plus_sign",
-               "leading_space", "empty", "hex", "leading_zero", "message_like"}
-BoolClasses == {"true", "false", "upper", "one", "yes", "empty", "message_like"}
-EnumClasses == {"member", "other_member", "non_member", "wrong_case", "empty", "message_like"}
+               "leading_space", "empty", "hex", "leading_zero", "message_like", "long_unicode"}
+BoolClasses == {"true", "false", "upper", "one", "yes", "empty", "message_like", "long_unicode"}
+EnumClasses == {"member", "other_member", "non_member", "wrong_case", "empty", "message_like", "long_unicode"}
 OptClasses == {"absent", "present"}
 
 IntTypes == {"u8", "u32", "i64"}
